@@ -532,7 +532,43 @@ type flagObs struct {
 var callFamily = map[vm.OpCode]bool{vm.CALL: true, vm.CALLCODE: true, vm.DELEGATECALL: true, vm.STATICCALL: true, vm.CREATE: true, vm.CREATE2: true}
 
 // Run executes the scenario on the real EVM for one fork and compares.
+// minFork: the oldest rule set on which every instruction of the scenario exists (the model has no notion of forks beyond Cancun/Berlin)
+func minFork(s *Scenario) string {
+	need := "Frontier"
+	up := func(f string) {
+		if evmx.ForkIndex(f) > evmx.ForkIndex(need) {
+			need = f
+		}
+	}
+	for _, t := range s.Tops {
+		if t.Kind == "create2" {
+			up("Constantinople")
+		}
+	}
+	for _, f := range s.Frames {
+		for _, in := range f.Prog {
+			switch {
+			case in.Op == "REVERT" || (in.Op == "CALL" && in.Kind == "STATICCALL"):
+				up("Byzantium")
+			case in.Op == "CREATE2":
+				up("Constantinople")
+			case in.Op == "CALL" && in.Kind == "DELEGATECALL":
+				up("Homestead")
+			}
+		}
+		if f.Init == "revert" {
+			up("Byzantium")
+		}
+	}
+	return need
+}
+
 func Run(s *Scenario, fork string) (out Outcome) {
+	if need := minFork(s); evmx.ForkIndex(fork) < evmx.ForkIndex(need) {
+		// a configuration error of the orchestrator, not a finding about the EVM
+		out.Mismatches = append(out.Mismatches, Mismatch{Comp: "config.fork", Detail: fmt.Sprintf("scenario uses an instruction that does not exist before %s, asked to replay on %s", need, fork)})
+		return
+	}
 	w := newWorld()
 	// every other scenario is replayed with the large wei unit (chosen by a property of the scenario, so that it is reproducible)
 	ni := 0
